@@ -124,6 +124,7 @@ func init() {
 		addSpec(&propSpec{ID: id, Level: "exploration", QuickRuns: 1600, ThorRuns: 40000, QuickSecs: 75, ThorSecs: 900})
 	}
 	addSpec(&propSpec{ID: "C07", Level: "exploration", QuickRuns: 1200, ThorRuns: 30000, QuickSecs: 75, ThorSecs: 900})
+	addSpec(&propSpec{ID: "C09", Level: "exploration", Race: true, QuickRuns: 640, ThorRuns: 16000, QuickSecs: 90, ThorSecs: 1200})
 	addSpec(&propSpec{ID: "C14", Level: "exploration", QuickRuns: 1200, ThorRuns: 30000, QuickSecs: 75, ThorSecs: 900})
 	addSpec(&propSpec{ID: "C16", Level: "exploration", Race: true, QuickRuns: 480, ThorRuns: 12000, QuickSecs: 90, ThorSecs: 1200})
 	addSpec(&propSpec{ID: "C15", Level: "fault_enumeration", QuickRuns: 48, ThorRuns: 4000, QuickSecs: 75, ThorSecs: 900,
